@@ -63,7 +63,7 @@ def snapshot(P, log, subjs, used):
 
 
 def view(st, q):
-    return [k for k, v in st.items], list(q.items)
+    return ([k for k, v in st.items] if st is not None else []), (list(q.items) if q is not None else [])      # None: a storage static nothing has touched yet
 
 
 def run(P, item):
@@ -83,23 +83,29 @@ def run(P, item):
         late = set(item.get('late', []))
         counts = {n: (0 if (n in unused or n in late) else nfill) for n in subj_names}
         cur = {'name': None}
-        args = {}; calls = {}
+        args = {}; calls = {}; outcomes = {}
         for name, k in counts.items():
             S = subjs[name]; arity = len(S.rec['args']); tl = []
             for i in range(k):
                 cargs, xs = subject_args(ctx, S.rec, f'{name}_{i}')
                 for prev in tl: ctx.add(b_not(tuple_eq(xs, prev)))
-                n0 = len(log)
+                n0 = len(log); ne0 = len(ctx.events)
                 wrap.call_subject(I, ctx, S, cargs, 0)
                 for e in log[n0:]: e['subject'] = name
                 tl.append(xs); calls.setdefault(name, []).append(cargs)
+                # outcome of this fill (Result functions / cache_if: chosen by the environment, all combinations are explored)
+                oc = dict(ok=True, pred=True)
+                for e in ctx.events[ne0:]:
+                    if e[0] == 'exec' and isinstance(e[4], Agg) and e[4].ty == 'Result': oc['ok'] = (e[4].variant == 0)
+                    if e[0] == 'pred': oc['pred'] = e[5]
+                outcomes.setdefault(name, []).append(oc)
             args[name] = tl
         used = [n for n in subj_names if counts[n] > 0]
         used_first = list(used)
         pre = {}
         snap = snapshot(P, log, subjs, used)
         for n in used:
-            ks, qs = view(*snap[n]); pre[n] = (list(ks), list(qs), [v for k, v in snap[n][0].items])
+            ks, qs = view(*snap[n]); pre[n] = (list(ks), list(qs), [v for k, v in (snap[n][0].items if snap[n][0] is not None else [])])
         # ---- the request (optionally issued twice, with the caches re-populated in between: the registry is stateful)
         pred = Pred(ctx)
         def request():
@@ -121,7 +127,7 @@ def run(P, item):
         def snap_now():
             out = {}
             for n in used:
-                ks, qs = view(*snap[n]); out[n] = (list(ks), list(qs), [v for k, v in snap[n][0].items])
+                ks, qs = view(*snap[n]); out[n] = (list(ks), list(qs), [v for k, v in (snap[n][0].items if snap[n][0] is not None else [])])
             return out
         def follow_up():
             fo = {}
@@ -151,8 +157,8 @@ def run(P, item):
             pre2 = snap_now(); ret2 = request(); post2 = snap_now(); follow2 = follow_up()
             second = dict(pre=pre2, post=post2, ret=ret2, follow=follow2, used=list(used))
         if second is not None:
-            return dict(subjs=subjs, used=used_first, pre=pre, post=post, ret=ret, pred=pred, args=args, follow=follow, second=second)
-        return dict(subjs=subjs, used=used, pre=pre, post=post, ret=ret, pred=pred, args=args, follow=follow)
+            return dict(subjs=subjs, used=used_first, pre=pre, post=post, ret=ret, pred=pred, args=args, follow=follow, second=second, outcomes=outcomes)
+        return dict(subjs=subjs, used=used, pre=pre, post=post, ret=ret, pred=pred, args=args, follow=follow, outcomes=outcomes)
 
     outs, st = explore(run_path, seed=item.get('seed', 0), timeout_ms=20000 if item.get('tier') != 'thorough' else 120000, max_paths=4000)
     for o in outs:
@@ -203,7 +209,9 @@ def _oracle_round(item, d, claims, classes, ctx, suffix):
             else:
                 add('C13', 'a cache that does not match keeps every entry', same_keys(ks0, ks1) and simp(b_and(*[term_eq(a, b) for a, b in zip(vs0, vs1)])), n)
                 add('C13', 'a cache that does not match keeps its eviction queue', same_keys(qs0, qs1), n)
-                if d['follow']: add('C13', 'a cache that does not match still serves its entries', d['follow'].get(n) == 0, n)
+                oc0 = (d.get('outcomes', {}).get(n) or [dict(ok=True, pred=True)])[0]
+                stored0 = oc0['ok'] is True and oc0['pred'] is True
+                if d['follow'] and stored0: add('C13', 'a cache that does not match still serves its entries', d['follow'].get(n) == 0, n)
         if kind == 'cache': add('C12', 'invalidate_cache returns whether a cache of that name was cleared', ret is (len(m) > 0) or simp(ret) == (len(m) > 0))
         else: add('C12', 'the returned count is the number of caches cleared', simp(ret == len(m)) is True)
     else:
@@ -255,7 +263,7 @@ def inv_witness(ctx, model, item, d, cname):
              fills={n: [[ev(x) for x in t] for t in ts] for n, ts in d['args'].items()},
              pred=[(cn, render_key(k, ev), ev(b)) for cn, k, b in d['pred'].memo], ret=(ev(d['ret']) if d['ret'] is not None and not isinstance(d['ret'], Agg) else None),
              late=sorted(item.get('late', [])), repeat=bool(item.get('repeat')), post_keys={n: [render_key(k, ev) for k in d['post'][n][0]] for n in d['used']}, post_queue={n: [render_key(k, ev) for k in d['post'][n][1]] for n in d['used']},
-             follow=d['follow'])
+             follow=d['follow'], outcomes={n: [dict(ok=bool(o['ok']) if isinstance(o['ok'], bool) else bool(ev(o['ok'])), pred=bool(o['pred']) if isinstance(o['pred'], bool) else bool(ev(o['pred']))) for o in os] for n, os in d.get('outcomes', {}).items()})
     return w
 
 
@@ -269,6 +277,14 @@ def replay(f, w):
     def callline(n, t):
         recv = t[0] if subs[n]['recv'] else 0; rest = t[1:] if subs[n]['recv'] else t
         return f"call 0 {n} {recv} " + ' '.join(map(str, rest))
+    scripted = False
+    for n, os in (w.get('outcomes') or {}).items():
+        it_ = subs[n]['intended']
+        if it_['result']: L.append(f"script oks {subs[n]['id']} " + ' '.join('1' if o['ok'] else '0' for o in os) + ' 1 1 1 1'); scripted = scripted or any(not o['ok'] for o in os)
+        if it_['cache_if']: L.append(f"script preds {subs[n]['id']} " + ' '.join('1' if o['pred'] else '0' for o in os) + ' 1 1 1 1'); scripted = scripted or any(not o['pred'] for o in os)
+    def was_stored(n, i):
+        os = (w.get('outcomes') or {}).get(n) or []
+        return True if i >= len(os) else (os[i]['ok'] and os[i]['pred'])
     for n, ts in w['fills'].items():
         if n in late: continue
         for t in ts: L.append(callline(n, t))
@@ -308,7 +324,7 @@ def replay(f, w):
     # expected by the attribute lists
     dev = []
     for n in names:
-        it = subs[n]['intended']; stored = [str(t[0]) if len(t) == 1 else '|'.join(map(str, t)) for t in w['fills'][n]]
+        it = subs[n]['intended']; stored = [str(t[0]) if len(t) == 1 else '|'.join(map(str, t)) for i_, t in enumerate(w['fills'][n]) if was_stored(n, i_)]
         if w['mode'] == 'group': exp = [] if matches(w['kind2'], w['name'], subs[n]) else stored
         elif w['mode'] == 'with': exp = [k for k in stored if not any(b and cn == w['name'] and kk == k for cn, kk, b in w['pred'])] if it['cache_name'] == w['name'] else stored
         else: exp = [k for k in stored if not any(b and cn == it['cache_name'] and kk == k for cn, kk, b in w['pred'])]
@@ -354,7 +370,8 @@ def diff_tail(w, subs, callline, tries=120):
     c = w['cache']
     if c not in w['fills'] or not w['fills'][c]: return None, []
     it = subs[c]['intended']
-    if not it['limit'] or subs[c]['flavour'] == 'T' or it['policy'] == 'Random' or len(subs[c]['args']) != 1 or subs[c]['recv']: return None, []
+    cap = it['limit'] or ((it['max_memory'] // 8) if (it['max_memory'] and subs[c]['ret'] == 'u64' and it['max_memory'] <= 4096) else None)      # u64 values: 8 bytes each
+    if not cap or subs[c]['flavour'] == 'T' or it['policy'] == 'Random' or len(subs[c]['args']) != 1 or subs[c]['recv']: return None, []
     cn = it['cache_name']
     removed = set(k for pc, k, b in w['pred'] if b and (pc == cn or w['mode'] == 'with' and pc == w['name']))
     stored = [t for t in w['fills'][c]]
@@ -362,7 +379,7 @@ def diff_tail(w, subs, callline, tries=120):
     if len(surv) == len(stored): return None, []
     if w['mode'] == 'with': req = 'inv_with ' + w['name'] + ' ' + ' '.join(k.replace(' ', '%20') for pc, k, b in w['pred'] if b and pc == w['name'])
     else: req = 'inv_all_with ' + ' '.join(f"{pc}:{k.replace(' ', '%20')}" for pc, k, b in w['pred'] if b)
-    lim = it['limit']
+    lim = cap
     for seed in range(tries):
         tail = gen_tail(seed, [t[0] for t in surv], lim)
         def script(fills):
